@@ -372,3 +372,17 @@ PROPS["C19"] = dict(
          "random subsets of the names (outcome compared), and the property's clauses are evaluated on "
          "the implementation's own answers; non-trivial when some referenced name is undefined",
 )
+
+PROPS["C15"] = dict(
+    streams=["C15"],
+    compare=cmp_laws,
+    classify=lambda case, model, why: dict(kind="failing-input", why=(case[1][:300] if "kind=law" in case[2] else why)),
+    gate_imports=EVAL_GATE + "From Coq Require Import Ascii.\nFrom Cel.Model Require Import Builtins.\nFrom Cel.Proofs Require Import NumericProofs DurationProofs.\nOpen Scope Z_scope.",
+    exhaustive=False,
+    rule="a case is a duration (boundary set: 0, +-1ns ... i64::MIN/MAX and neighbours; log-uniform random "
+         "nanosecond counts of both signs) observed through string(d), duration(string(d)), +, -, comparisons, "
+         "or a text passed to duration() (hand-written malformed spellings and single-character mutations of "
+         "valid renderings); non-trivial when the duration is negative or has a sub-second part, or the text "
+         "is malformed; the laws (rendering equals an independent implementation of Go's Duration.String, round "
+         "trip, exact add/sub or overflow error, comparison) are evaluated on the implementation's answers",
+)
